@@ -31,7 +31,7 @@ Print Assumptions C02_gen_main_total.
                    every guard entry's function was generated for that type
                    (fails under the name collisions F9 / F22 and the Literal key alias F23);
      region_ok g : no helper-compiled annotation contains a fixed-arity tuple under an
-                   index (F18) or a sequence in dict-key position (F25).
+                   index (F18) or a sequence in dict-key position (F26).
    `_partial`: outside these regions the statement is false, see the refutations. *)
 Theorem C02_gen_sound_partial :
   forall Or ct gn c f g,
@@ -42,7 +42,7 @@ Print Assumptions C02_gen_sound_partial.
 
 (* The position-level statement: an expression generated at ANY TypeInfo ti, evaluated in
    ANY environment, computes the specification applied to whatever the variable access
-   `ti.v()` evaluates to — whenever the annotation is free of the F18 / F25 shapes at that
+   `ti.v()` evaluates to — whenever the annotation is free of the F18 / F26 shapes at that
    position.  (Gf is the final generator state the expression is linked against.) *)
 Theorem C02_gen_expr_sound_partial :
   forall Or ct gn t ti cn g c g',
@@ -135,16 +135,16 @@ Theorem C02_refuted_F23 :
 Proof. vm_compute. do 4 eexists. repeat split; reflexivity. Qed.
 Print Assumptions C02_refuted_F23.
 
-(* F25: x: dict[tuple[int, ...], int] — the key comprehension binds v3 but reads k3 *)
-Definition ct_F25 : ctable :=
+(* F26: x: dict[tuple[int, ...], int] — the key comprehension binds v3 but reads k3 *)
+Definition ct_F26 : ctable :=
   [{| c_name := S "K"; c_fields := [fd "x" (TDict None (TSeq KTuple tI) tI)] |}].
-Definition doc_F25 := doc1 "x" (VDict None [(VSeq KTuple [VInt 1; VInt 2], VInt 3)]).
-Theorem C02_refuted_F25 :
+Definition doc_F26 := doc1 "x" (VDict None [(VSeq KTuple [VInt 1; VInt 2], VInt 3)]).
+Theorem C02_refuted_F26 :
   exists f g e v,
-    gen_main ct_F25 2 0 = Ok (f, g) /\ coherent g = true /\ region_ok ct_F25 g = false /\
-    run_main toy ct_F25 2 3 0 doc_F25 = Err e /\ load_cls toy ct_F25 3 0 doc_F25 = Ok v.
+    gen_main ct_F26 2 0 = Ok (f, g) /\ coherent g = true /\ region_ok ct_F26 g = false /\
+    run_main toy ct_F26 2 3 0 doc_F26 = Err e /\ load_cls toy ct_F26 3 0 doc_F26 = Ok v.
 Proof. vm_compute. do 4 eexists. repeat split; reflexivity. Qed.
-Print Assumptions C02_refuted_F25.
+Print Assumptions C02_refuted_F26.
 
 (* ---- non-vacuity: a class table with a self-referential class, a NamedTuple inside a
    list inside a dict, Optional, Literal and a fixed tuple satisfies every hypothesis ------ *)
